@@ -77,7 +77,7 @@ func TestLibFuzzer(t *testing.T) {
 	for _, k := range env.Kinds {
 		ki := k.Index
 		for _, f := range cp.Small(k.Pkg(), 8<<10) {
-			for _, hdr := range [][3]byte{{0, 0, 0}, {5, 0, 0}, {0, 64, 0}} {
+			for _, hdr := range [][3]byte{{0, 0, 0}, {5, 0, 0}, {0, 64, 0}, {100, 16, 0}} {
 				b := append([]byte{byte(ki), hdr[0], hdr[1], hdr[2]}, f.Data...)
 				os.WriteFile(filepath.Join(corpus, fmt.Sprintf("seed-%d", nseed)), b, 0o644)
 				nseed++
